@@ -583,7 +583,7 @@ impl Check for C17 {
     }
     fn plan(&self, tier: Tier) -> Plan {
         Plan {
-            cases: if tier == Tier::Quick { 3200 } else { 32_000 },
+            cases: if tier == Tier::Quick { 9600 } else { 96_000 },
             max_tape: 40,
             shard_cases: if tier == Tier::Quick { 100 } else { 400 },
             max_shrink_iters: 300,
